@@ -70,3 +70,74 @@ def declare(spec):
                   "slot_ok(self) and gen_pos(self.schedule_generator) == 1 and self.next_slot_date == self.offset + self.slots[0] "
                   "and self.slot_size == self.next_slot_sizes[1 % len(self.slots)]")],
         props=["C12"])
+
+
+def declare_node_side(spec):
+    """shift changes at a node (C12 / C04): kill_server, add_new_servers, take_servers_off_duty, change_shift"""
+    M = spec.macros
+    SRV = "obj:Server"
+    add(spec, "Node.kill_server", types={"srvr": SRV},
+        requires=["has(self, 'servers') and srvr in self.servers", "is_fin(srvr.start_date) and is_fin(srvr.busy_time)",
+                  "is_fin(srvr.shift_end)", INV("float_clock(self)"), "is_fin(self.now)"],
+        modifies=["total_time@srvr", "$seq@self.overtime", "$seq@self.all_servers_busy", "$seq@self.all_servers_total", "$seq@self.servers"],
+        ensures=[
+            ("C04+C12:a-leaving-server's-total-time-runs-from-its-start-until-now", "srvr.total_time == self.now - srvr.start_date"),
+            ("C12:overtime-is-the-time-worked-past-the-shift-end", "S(self.overtime) == append1(old(S(self.overtime)), self.now - srvr.shift_end)"),
+            ("C04:the-server's-totals-are-kept-for-the-utilisation",
+             "S(self.all_servers_busy) == append1(old(S(self.all_servers_busy)), srvr.busy_time) and "
+             "S(self.all_servers_total) == append1(old(S(self.all_servers_total)), srvr.total_time)"),
+            ("C12:exactly-that-server-leaves", "S(self.servers) == remove1(old(S(self.servers)), srvr)"),
+        ],
+        props=["C04", "C12"])
+
+    add(spec, "Node.add_new_servers", types={"num_servers": "int"},
+        requires=["has(self, 'servers')", "num_servers >= 0", "is_int(self.highest_id)", INV("float_clock(self)"), "is_fin(self.now)"],
+        modifies=["$seq@self.servers", "highest_id@self"], allocates=["Server"],
+        ensures=[
+            ("C12:exactly-the-scheduled-number-of-servers-is-added", "len(self.servers) == old(len(self.servers)) + num_servers"),
+            ("C12:servers-already-there-stay", "forall_int(lambda k: implies(0 <= k and k < old(len(self.servers)), ref_eq(self.servers[k], old(self.servers[k]))), trigger=lambda k: self.servers[k])"),
+            ("C12+C04:new-servers-are-on-duty-idle-and-start-now",
+             "forall_int(lambda k: implies(old(len(self.servers)) <= k and k < len(self.servers), not self.servers[k].busy and not self.servers[k].offduty "
+             "and self.servers[k].cust is False and self.servers[k].start_date == self.now and ref_eq(self.servers[k].node, self) "
+             "and not was_alive(self.servers[k]) and isinf(self.servers[k].next_end_service_date) "
+             "and self.servers[k].id_number == old(self.highest_id) + (k - old(len(self.servers))) + 1), trigger=lambda k: self.servers[k])"),
+            ("ids-advance", "self.highest_id == old(self.highest_id) + num_servers"),
+        ],
+        loop_invariants={0: [
+            "len(self.servers) == old(len(self.servers)) + _i and self.highest_id == old(self.highest_id) + _i",
+            "forall_int(lambda k: implies(0 <= k and k < old(len(self.servers)), ref_eq(self.servers[k], old(self.servers[k]))), trigger=lambda k: self.servers[k])",
+            "forall_int(lambda k: implies(old(len(self.servers)) <= k and k < len(self.servers), not self.servers[k].busy and not self.servers[k].offduty "
+            "and self.servers[k].cust is False and self.servers[k].start_date == self.now and ref_eq(self.servers[k].node, self) "
+            "and not was_alive(self.servers[k]) and isinf(self.servers[k].next_end_service_date) "
+            "and self.servers[k].id_number == old(self.highest_id) + (k - old(len(self.servers))) + 1), trigger=lambda k: self.servers[k])",
+        ]},
+        props=["C12", "C04"])
+
+    # ---- a shift ends (C12): non-pre-emptive: busy servers finish their customer as overtime (marked off duty), idle ones leave;
+    # pre-emptive: every service in progress is interrupted now and every server leaves
+    M["srv_dates_ok"] = ("lambda n: forall_in(n.servers, lambda s: is_fin(s.start_date) and is_fin(s.busy_time) "
+                         "and (s.shift_end is False or is_fin(s.shift_end)))")
+    add(spec, "Node.take_servers_off_duty", types={"preemption": "orfalse:str"},
+        requires=["has(self, 'servers')", INV("float_clock(self)"), "is_fin(self.now)", INV("srv_dates_ok(self)"),
+                  ("C12:a-shift-change-is-the-node's-own-event", "self.next_event_date == self.now")],
+        allocates=True, raises=[("ValueError", "True")],
+        cases=[
+            dict(name="overtime", when="preemption is False",
+                 modifies=["shift_end@S(self.servers)", "offduty@S(self.servers)", "total_time@S(self.servers)", "$seq@self.servers",
+                           "$seq@self.overtime", "$seq@self.all_servers_busy", "$seq@self.all_servers_total"],
+                 ensures=[
+                     ("C12:busy-servers-stay-to-finish-their-customer-and-are-marked-off-duty",
+                      "forall_in(old(S(self.servers)), lambda s: implies(oldf(s, 'busy'), s in self.servers and s.offduty and s.shift_end == self.now))"),
+                     ("C12:idle-servers-leave-at-once",
+                      "forall_in(self.servers, lambda s: s.busy and s in old(S(self.servers)))"),
+                     ("C12:no-service-is-touched", "same('cust', 'busy', 'service_start_date', 'service_end_date', 'number_in_service')"),
+                 ],
+                 loop_invariants={
+                     0: ["forall_int(lambda j: implies(0 <= j and j < _i, _it[j].shift_end == self.now and implies(_it[j].busy, _it[j].offduty) "
+                         "and (_it[j].busy or _it[j] in to_delete)), trigger=lambda j: _it[j])",
+                         "forall_in(to_delete, lambda s: s in self.servers and not s.busy and s.shift_end == self.now)",
+                         "nodup(S(to_delete))" ],
+                 }),
+            dict(name="preemptive", when="not (preemption is False)", modifies=["*"], ensures=[]),
+        ],
+        props=["C12"])
